@@ -382,7 +382,7 @@ for _mut in (False, True):
         HANDLE_CORPUS.append({"mutable": _mut, "size": 300, "toks": ["W:100:" + (b"CLIENT".hex() * 5), "G:" + _g]})
     HANDLE_CORPUS.append({"mutable": _mut, "size": 300, "toks": ["G:0", "W:10:aaab", "G:0", "W:290:" + "cd" * 30, "G:0", "S:250", "G:0"]})
     HANDLE_CORPUS.append({"mutable": _mut, "size": 300, "toks": ["G:3", "W:0:" + "ee" * 70, "G:1", "R:60:20", "W:65:f0f1", "G:2"]})
-    # only size changes, no writeChunk (setAttrs does not set has_changed: known finding / fixes/C39-setattrs-has-changed.diff)
+    # only size changes, no writeChunk (before fix d9a6762 setAttrs did not set has_changed and close skipped the commit)
     HANDLE_CORPUS.append({"mutable": _mut, "size": 300, "toks": ["S:100", "G:q"]})
     HANDLE_CORPUS.append({"mutable": _mut, "size": 300, "toks": ["G:q", "S:400", "G:1"]})
     HANDLE_CORPUS.append({"mutable": _mut, "size": 200, "toks": ["W:150:" + "99" * 20, "G:q", "S:120", "G:0", "S:260", "W:5:0102", "G:1"]})
@@ -546,7 +546,7 @@ def run_handles(ctx, plans, label, hcases, himpl, hlines):
                 hlines.append("c39h code %s %s" % (original.hex() or "-", " ".join(htoks)))
                 if close_ok and final != bytes(ref):
                     if nwrites == 0:
-                        # no writeChunk at all, only setAttrs(size): setAttrs never sets has_changed, so close skips the commit
+                        # no writeChunk at all, only setAttrs(size) (the defect repaired by d9a6762)
                         problems.append(("size-change-only-handle-not-stored",
                                          "close reported success but the size change(s) were not stored (stored %d bytes, reference %d bytes)" % (
                                              len(final), len(ref))))
